@@ -1,15 +1,19 @@
 package checks
 
 import (
+	"strings"
+
 	"bytes"
 	"encoding/json"
 	"fmt"
 	"os"
 	"path/filepath"
+	"pgregory.net/rapid"
 	"reflect"
 	"testing"
 	"time"
 	"unsafe"
+	"verifh/gen"
 
 	"github.com/philpearl/avro"
 
@@ -221,3 +225,44 @@ func FuzzTime(f *testing.F) {
 		}
 	})
 }
+
+// ---------------------------------------------------------------------------
+// The structured generators under the coverage-guided fuzzer: rapid.MakeFuzz turns
+// the fuzzer's bytes into the generator's draws, so the fuzzer's coverage feedback
+// steers type shapes, values and call histories (thorough tier only).
+
+func fuzzProp[C any](f *testing.F, property, entry string, draw func(*rapid.T) C, run func(C) (bool, []string, error)) {
+	// starting inputs: byte strings long enough for the generator to draw whole cases from
+	x := uint64(88172645463325252)
+	for i := 0; i < 24; i++ {
+		b := make([]byte, 256<<(i%6))
+		for j := range b {
+			x ^= x << 13
+			x ^= x >> 7
+			x ^= x << 17
+			b[j] = byte(x >> 24)
+		}
+		f.Add(b)
+	}
+	f.Fuzz(rapid.MakeFuzz(func(rt *rapid.T) {
+		c := draw(rt)
+		err := protect(func() error {
+			_, _, e := run(c)
+			return e
+		})
+		if err != nil {
+			if strings.Contains(err.Error(), "VERIF-INCONCLUSIVE") {
+				rt.Skip()
+			}
+			failCase(rt, property, entry, c, err)
+		}
+	}))
+}
+
+func FuzzC01(f *testing.F) { fuzzProp(f, "C01", "c01", drawEncCase, runC01) }
+func FuzzC02(f *testing.F) { fuzzProp(f, "C02", "c02", drawEncCase, runC02) }
+func FuzzC03(f *testing.F) {
+	o := &gen.WireOpts{MaxDepth: 4, MultiUnion: true, Drop: 8, Logical: true}
+	fuzzProp(f, "C03", "c03", func(t *rapid.T) wireCase { return drawWireCase(t, o) }, runC03)
+}
+func FuzzC13(f *testing.F) { fuzzProp(f, "C13", "c13", drawWriteCase, runC13) }
